@@ -395,6 +395,57 @@ def r2_7_u16_list(ctx, prog, rule="R2.7"):
     ctx.floor(rule, "reader classes", len(seen), 2)
 
 
+def r2_10_header_validation(ctx, prog, rule="R2.10"):
+    ctx.rule(rule, "a STUN header is accepted only if the two most significant bits of the type word are zero and bytes 4..8 equal "
+                   "the magic cookie 0x2112A442; the accepted header carries type & 0x3FFF, the length read from 2..4, the "
+                   "transaction id 8..20 and consumes 20 bytes")
+    fn = "<stun_rs::raw::MessageHeader<'a> as stun_rs::Decode<'a>>::decode"
+    paths, info = C.explore_fn(prog, fn, "x", [r"\{closure"])
+    ctx.fn(info["body"])
+    T = ("BigEndian::read_u16", (("index::index", "top:buffer", ("RangeTo", 2)), ".*"))
+    T2 = ("BigEndian::read_u16", (("index::index", "top:buffer", ("Range", 0, 2)), ".*"))
+
+    def is_t(x):
+        return x == T or x == T2
+    n_ok = 0
+    for pa in paths:
+        r = C.expr_of(pa, pa.ret)
+        if not (isinstance(r, tuple) and r[0] == "Result::Ok"):
+            continue
+        n_ok += 1
+        bits_ok = False
+        for op, a, b, v in pa.guards():
+            if isinstance(a, tuple) and b == 0 and ((op == "Ne" and v == 0) or (op == "Eq" and v == 1)):
+                if a[0] == "op:Shr" and is_t(a[1]) and a[2] == 14:
+                    bits_ok = True
+                if a[0] == "op:BitAnd" and is_t(a[1]) and a[2] == 0xC000:
+                    bits_ok = True
+            if op == "Lt" and v == 1 and is_t(a) and b == 0x4000:
+                bits_ok = True
+            if op == "Ge" and v == 0 and is_t(a) and b == 0x4000:
+                bits_ok = True
+        cookie_ok = False
+        for e in pa.calls:
+            m = re.search(r"PartialEq<.*>>::(eq|ne)$", e[1])
+            if not m:
+                continue
+            a = C.expr_of(pa, e[2])
+            if repr(("Range", 4, 8)) in repr(a) and 0x2112A442 in [x for t in a if isinstance(t, tuple) for x in t if isinstance(x, int)]:
+                want = 1 if m.group(1) == "eq" else 0
+                got = pa.choice(r"%s$" % re.escape(e[4].split("@")[-1]))
+                cookie_ok = (got == want)
+        val = r[1]
+        hdr = val[1] if isinstance(val, tuple) and val[0] == "tuple" else None
+        shape_ok = isinstance(hdr, tuple) and hdr[0] == "MessageHeader" and len(hdr) == 6 and val[2] == 20 \
+            and isinstance(hdr[2], tuple) and hdr[2][0] == "op:BitAnd" and is_t(hdr[2][1]) and hdr[2][2] == 0x3FFF \
+            and hdr[3] == ("BigEndian::read_u16", (("index::index", "top:buffer", ("Range", 2, 4)), ".*")) \
+            and repr(("Range", 4, 8)) in repr(hdr[4]) and repr(("Range", 8, 20)) in repr(hdr[5])
+        ctx.ob(rule, "header:accept", bits_ok and cookie_ok and shape_ok,
+               "accepted iff top two bits zero: %s, cookie equal: %s; fields type&0x3FFF / length 2..4 / cookie 4..8 / id 8..20 / size 20: %s"
+               % (bits_ok, cookie_ok, shape_ok), info["where"], replay=None if (bits_ok and cookie_ok and shape_ok) else pa.describe())
+    ctx.floor(rule, "accepting paths of MessageHeader::decode", n_ok, 1)
+
+
 
 def check(ctx, env):
     ctx.explanation = (
@@ -417,6 +468,7 @@ def check(ctx, env):
     r2_5_constants(ctx, prog)
     r2_6_address_layout(ctx, prog)
     r2_7_u16_list(ctx, prog)
+    r2_10_header_validation(ctx, prog)
     c01.r1_6_nested_padding(ctx, prog, rule="R2.8")      # inner padding of the nested PASSWORD-ALGORITHMS list is written where it belongs
     from . import coverage_rules
     coverage_rules.r14_5_write_coverage(ctx, prog, rule="R2.9")   # every byte of an encoded value is written (reserved / padding bytes cannot keep stale data)
